@@ -1,0 +1,33 @@
+//go:build verif
+
+package netutil
+
+// Read-only state dump used by the verification harness in /verif (build tag "verif").
+
+// VerifFilterState is a snapshot of the internal state of an IPv4Filter.
+type VerifFilterState struct {
+	MatchAll bool
+	MapsMode bool
+	Index    int
+	List     [][2]uint32 // ipList[0:index]
+	Maps     [][2]uint32 // (ones, masked address) for every key of every ipMaps[ones-1]
+}
+
+// VerifState returns a snapshot of the filter's internal state (taken under the read lock).
+func (f *IPv4Filter) VerifState() VerifFilterState {
+	f.mutex.RLock()
+	defer f.mutex.RUnlock()
+	st := VerifFilterState{MatchAll: f.matchAll.Load(), MapsMode: f.mode == modeMaps, Index: f.index}
+	st.List = append(st.List, f.ipList[:f.index]...)
+	for i := range f.ipMaps {
+		for k, v := range f.ipMaps[i] {
+			if v {
+				st.Maps = append(st.Maps, [2]uint32{uint32(i + 1), k})
+			}
+		}
+	}
+	return st
+}
+
+// VerifListSize reports the capacity of the linear list.
+func VerifListSize() int { return listSize }
